@@ -15,6 +15,7 @@ Standard checks that can cover a whole row or data set.
 #
 # You should have received a copy of the GNU Lesser General Public License
 # along with this program.  If not, see <http://www.gnu.org/licenses/>.
+import ast
 import copy
 import tokenize
 
@@ -224,6 +225,19 @@ class DistinctCountCheck(AbstractCheck):
     """
 
     _COUNT_NAME = "count"
+    _EXPRESSION_NODE_TYPES = (
+        ast.Expression,
+        ast.BoolOp,
+        ast.BinOp,
+        ast.UnaryOp,
+        ast.Compare,
+        ast.Constant,
+        ast.expr_context,
+        ast.boolop,
+        ast.operator,
+        ast.unaryop,
+        ast.cmpop,
+    )
 
     def __init__(self, description, rule, available_field_names, location=None):
         super().__init__(description, rule, available_field_names, location)
@@ -252,23 +266,39 @@ class DistinctCountCheck(AbstractCheck):
         assert column_where_field_name_ends > 0
 
         # Build and test Python expression for validation.
-        self._expression = DistinctCountCheck._COUNT_NAME + rule[column_where_field_name_ends:]
-        try:
-            names_in_expression = set(compile(self._expression, "<rule>", "eval").co_names)
-        except (SyntaxError, ValueError) as error:
-            raise errors.InterfaceError(
-                "cannot evaluate count expression %r: %s" % (self._expression, error), self.location_of_rule
-            )
-        names_in_expression.discard(DistinctCountCheck._COUNT_NAME)
-        if names_in_expression:
-            raise errors.InterfaceError(
-                "count expression %r must refer only to the field to count but also refers to: %s"
-                % (self._expression, _tools.human_readable_list(sorted(names_in_expression), "and")),
-                self.location_of_rule,
-            )
+        self._expression = DistinctCountCheck._validated_expression(
+            DistinctCountCheck._COUNT_NAME + rule[column_where_field_name_ends:], self.location_of_rule
+        )
         self._distinct_value_to_count_map = None
         self.reset()
         self._eval()
+
+    @staticmethod
+    def _validated_expression(expression, location):
+        """
+        Same as ``expression`` provided that it refers only to the count and
+        is built only from numbers, comparisons, arithmetic and boolean
+        operators. In particular, it cannot call anything.
+        """
+        try:
+            expression_tree = ast.parse(expression, "<rule>", "eval")
+        except (SyntaxError, ValueError, RecursionError, MemoryError) as error:
+            raise errors.InterfaceError("cannot evaluate count expression %r: %s" % (expression, error), location)
+        for node in ast.walk(expression_tree):
+            if isinstance(node, ast.Name):
+                if node.id != DistinctCountCheck._COUNT_NAME:
+                    raise errors.InterfaceError(
+                        "count expression %r must refer only to the field to count but also refers to: %s"
+                        % (expression, node.id),
+                        location,
+                    )
+            elif not isinstance(node, DistinctCountCheck._EXPRESSION_NODE_TYPES):
+                raise errors.InterfaceError(
+                    "count expression %r must consist only of numbers, comparisons, arithmetic, "
+                    "'and', 'or' and 'not' but contains: %s" % (expression, type(node).__name__),
+                    location,
+                )
+        return expression
 
     def reset(self):
         self._distinct_value_to_count_map = {}
@@ -287,7 +317,7 @@ class DistinctCountCheck(AbstractCheck):
             raise errors.InterfaceError(
                 "cannot evaluate count expression %r: %s" % (self._expression, message), self.location_of_rule
             )
-        if result not in (True, False):
+        if not isinstance(result, bool):
             raise errors.InterfaceError(
                 "count expression %r must result in %r or %r, but test resulted in: %r"
                 % (self._expression, True, False, result),
